@@ -268,7 +268,11 @@ package rules
 //@ -- rule matches exactly prefix+wildcard; the callbacks jump to the endpoint chain of the name they were given;
 //@ -- the nftables verdict maps send each interface to its own from-/to-chain; workload dispatch ends in a deny
 //@ -- rule; host dispatch gets end rules only when a wildcard host endpoint is configured.
+//@ -- (match and action of one rule may be computed in either order: whichever comes second is checked against the first)
 //@ ghost c10Name string
+//@ ghost c10AName string
+//@ ghost c10HaveM bool
+//@ ghost c10HaveA bool
 //@ ghost c10Chain string
 //@ ghost c10Deny bool
 //@ func (*DefaultRuleRenderer).buildSingleDispatchChainTree
@@ -278,12 +282,15 @@ package rules
 //@   option stable (*DefaultRuleRenderer).wildcard, (*generictables.Chain).Rules, []*generictables.Chain
 //@   option callpre off
 //@   requires r != nil
-//@   ghost at call getMatchForEndpoint: c10Name = arg0
-//@   ghost at call getActionForEndpoint: check arg0 == endpointPfx && arg1 == c10Name
-//@   ghost at call GoTo: check c10Name == prefix + old(r.wildcard)
+//@   requires !c10HaveM && !c10HaveA
+//@   ghost at call getMatchForEndpoint: check c10HaveA ==> arg0 == c10AName ; c10Name = arg0 ; c10HaveM = !c10HaveA ; c10HaveA = false
+//@   ghost at call getActionForEndpoint: check arg0 == endpointPfx ; check c10HaveM ==> arg1 == c10Name ; c10AName = arg1 ; c10HaveA = !c10HaveM ; c10HaveM = false
+//@   ghost at call GoTo: check c10HaveM && c10Name == prefix + old(r.wildcard) ; c10HaveM = false
 //@   ensures res1 != nil && res1.Rules == res2 && len(res2) >= len(endRules)
 //@   ensures forall j int :: 0 <= j && j < len(res0) ==> res0[j] != nil && len(res0[j].Rules) >= len(endRules)
 //@   loop 1 invariant forall j int :: 0 <= j && j < len(childChains) ==> childChains[j] != nil && len(childChains[j].Rules) >= len(endRules)
+//@   loop 1 invariant !c10HaveM && !c10HaveA
+//@   loop 2 invariant !c10HaveM && !c10HaveA
 //@ -- the nftables variant: one verdict-map rule, then the end rules - in the chain that is returned
 //@ func (*DefaultRuleRenderer).buildSingleDispatchChainsVMAP
 //@   property C10
